@@ -65,12 +65,17 @@ func (e *SeqArrowExpr) Eval(ctx context.Context, local Scope) (_ Value, err erro
 	case String: //nolint:dupl
 		runes := make([]rune, len(value.s))
 		for at, char := range value.s {
+			if char < 0 {
+				// a hole stays a hole
+				runes[at] = char
+				continue
+			}
 			newChar, err := call(NewNumber(float64(value.offset+at)), NewNumber(float64(char)))
 			if err != nil {
 				return nil, WrapContextErr(err, e, local)
 			}
 			if n, is := newChar.(Number); is {
-				if r := rune(n.Float64()); float64(r) == n.Float64() {
+				if r := rune(n.Float64()); float64(r) == n.Float64() && r >= 0 {
 					runes[at] = r
 					continue
 				}
